@@ -188,8 +188,12 @@ fn generate_global_branch(
                     cachelito_core::InvalidationRegistry::global().register_callback(
                         #fn_name_str,
                         move || {
+                            // One critical section (order queue, then store): a clear that lands
+                            // between the two halves of an insert must not leave a stored entry
+                            // the order queue does not know.
+                            let mut order_write = #order_ident.lock();
                             #cache_ident.write().clear();
-                            #order_ident.lock().clear();
+                            order_write.clear();
                         }
                     );
                 });
